@@ -86,7 +86,13 @@ impl Property for C10 {
         let sort = || if o.by_name { SortBy::XmlName } else { SortBy::Unsorted };
         let base_opts = Options { text_identifier: ST.into(), attribute_prefix: SP.into(), derive: String::new(), sort: sort() };
         let base = root.to_serde_struct(&base_opts);
-        let actual = root.to_serde_struct(&o.to_options());
+        let actual = root.to_serde_struct(&o.to_options_literal());
+        // the same options set through the builder must render the same bytes
+        let via_builder = root.to_serde_struct(&o.to_options());
+        if via_builder != actual {
+            return Err(Failure::new(format!("Options::derive({:?}) does not reproduce the derive string verbatim", o.derive))
+                .with_detail(json!({"literal": actual, "builder": via_builder, "options": o.json()})));
+        }
         let detail = |exp: &str| json!({"case": describe_case(&p), "options": o.json(), "base_with_sentinels": base, "expected": exp, "actual": actual});
 
         // classification
